@@ -41,3 +41,10 @@ for _hl, _tier in ((4, "thorough"),):
   functions=["token_pool_init", "token_pool_drain", "token_pool_free", "token_new", "pool_allocate_object", "pool_drain", "pool_free", "pool_new"],
   callees={"all": "body"}, nobody_ok=["fprintf"], native=_TP_NATIVE, assumptions=[NOFAIL])
 
+
+# ---- with the pool enabled: token_free has an empty frame, token_new returns the pool's object
+U("token_free_pool_noop", ["C18"], "h_token_free", ["C18/token_pool.c"], ["object_pool.c", "stack.c", "char.c"], enforce="token_free", lib=(),
+  callees={}, native=None, min_obligations=5, assumptions=["token.c is verified as textually included in the spec TU (its statics are not linkable)", "build configuration with kUseObjectPool (the default)"])
+U("token_new_from_pool", ["C18"], "h_token_new", ["C18/token_pool.c"], ["object_pool.c", "stack.c", "char.c"], enforce="token_new", replace=["pool_allocate_object"], lib=(),
+  callees={"pool_allocate_object": "contract (returns the ghost object; its own contract: unit pool_allocate_object)"}, native=None, min_obligations=5,
+  assumptions=["token.c is verified as textually included in the spec TU", "build configuration with kUseObjectPool (the default)"])
